@@ -121,6 +121,16 @@ impl Operator<'_> {
         want: usize,
     ) -> std::io::Result<(usize, CompletionQueue<'_>, Option<Duration>)> {
         let start_time = Instant::now();
+        // under the harness' virtual clock the ring is only polled: waiting is the selector's
+        // business (it advances the virtual clock), and the time left is handed on unchanged
+        #[cfg(feature = "verif")]
+        let virtual_timeout = timeout;
+        #[cfg(feature = "verif")]
+        let timeout = if crate::verif::is_virtual_driver() {
+            timeout.map(|_| Duration::ZERO)
+        } else {
+            timeout
+        };
         self.timeout_add(crate::common::constants::IO_URING_TIMEOUT_USERDATA, timeout)?;
         let mut cq = unsafe { self.inner.completion_shared() };
         // when submit queue is empty, submit_and_wait will block
@@ -164,6 +174,10 @@ impl Operator<'_> {
                 }
                 None => break,
             }
+        }
+        #[cfg(feature = "verif")]
+        if crate::verif::is_virtual_driver() {
+            return Ok((count, cq, virtual_timeout));
         }
         let cost = Instant::now().saturating_duration_since(start_time);
         Ok((count, cq, timeout.map(|t| t.saturating_sub(cost))))
